@@ -121,6 +121,9 @@ type sFunc struct {
 }
 type sNone struct{}
 
+// sVoid is the "value" of a return without results (closures used for their effects on captured accumulators).
+type sVoid struct{}
+
 // Undecided is raised (as panic) when a construct outside the supported subset is met.
 type Undecided struct {
 	Pos token.Pos
@@ -182,6 +185,9 @@ type Extractor struct {
 	Implementers func(*types.Interface) []*types.Named
 	MaxDepth     int // how often one function may be active on the inlining stack
 	Funcs        map[string]bool // functions inlined (evidence)
+	// Opaque: calls that cannot be inlined (external functions, interface methods, methods without source)
+	// become leaves named by their normalised text ("n.parent.AssignExpr()", "IsPtr(n.arg.ExprType())").
+	Opaque bool
 }
 
 // NewExtractor indexes function declarations of the given packages.
@@ -247,7 +253,7 @@ func (x *Extractor) ExtractFunc(fn *types.Func, roots map[string]string) (t T, e
 	bind(fd.Type.Params)
 	x.stack = append(x.stack, fn)
 	x.Funcs[fn.FullName()] = true
-	ret := x.execBlock(pkg, fd.Body.List, e)
+	ret := x.execBlockT(pkg, fd.Body.List, e, true)
 	x.stack = x.stack[:len(x.stack)-1]
 	s, ok := ret.(sStr)
 	if !ok {
@@ -260,15 +266,23 @@ func (x *Extractor) ExtractFunc(fn *types.Func, roots map[string]string) (t T, e
 
 // execBlock executes statements; it returns the returned value if every path returns, else nil.
 func (x *Extractor) execBlock(pkg *packages.Package, stmts []ast.Stmt, e *env) sym {
+	return x.execBlockT(pkg, stmts, e, false)
+}
+
+// execBlockT: tail reports that the end of stmts is the end of the function body (falling off = returning).
+func (x *Extractor) execBlockT(pkg *packages.Package, stmts []ast.Stmt, e *env, tail bool) sym {
 	for i, st := range stmts {
 		switch s := st.(type) {
 		case *ast.ReturnStmt:
+			if len(s.Results) == 0 {
+				return sVoid{}
+			}
 			if len(s.Results) != 1 {
 				x.fail(s.Pos(), "return with %d results", len(s.Results))
 			}
 			return x.eval(pkg, s.Results[0], e)
 		case *ast.IfStmt:
-			return x.execIf(pkg, s, stmts[i+1:], e)
+			return x.execIfT(pkg, s, stmts[i+1:], e, tail)
 		case *ast.BlockStmt:
 			inner := newEnv(e)
 			if r := x.execBlock(pkg, s.List, inner); r != nil {
@@ -282,6 +296,10 @@ func (x *Extractor) execBlock(pkg *packages.Package, stmts []ast.Stmt, e *env) s
 }
 
 func (x *Extractor) execIf(pkg *packages.Package, s *ast.IfStmt, rest []ast.Stmt, e *env) sym {
+	return x.execIfT(pkg, s, rest, e, false)
+}
+
+func (x *Extractor) execIfT(pkg *packages.Package, s *ast.IfStmt, rest []ast.Stmt, e *env, tail bool) sym {
 	scope := newEnv(e)
 	var cond G
 	if s.Init != nil {
@@ -326,10 +344,45 @@ func (x *Extractor) execIf(pkg *packages.Package, s *ast.IfStmt, rest []ast.Stmt
 	case *ast.IfStmt:
 		rElse = x.execIf(pkg, el, nil, elseEnv)
 	}
+	_, voidThen := rThen.(sVoid)
+	_, voidElse := rElse.(sVoid)
+	if (voidThen && rElse == nil) || (voidElse && rThen == nil) {
+		// early `return` (no results) on one side inside a function used for its effects: the state at the
+		// return and the state after the rest of the body are alternatives
+		if !tail {
+			x.fail(s.Pos(), "early return inside a nested block of a result-less function")
+		}
+		pre := e.clone()
+		retEnv, contEnv := thenEnv, elseEnv
+		c := cond
+		if voidElse {
+			retEnv, contEnv = elseEnv, thenEnv
+			c = GNot{X: cond}
+		}
+		joinEnv(e, GConst{false}, retEnv, contEnv) // continue with the non-returning side
+		if r := x.execBlockT(pkg, rest, e, true); r != nil {
+			if _, ok := r.(sVoid); !ok {
+				x.fail(s.Pos(), "mixed value and result-less returns")
+			}
+		}
+		post := e.clone()
+		for k := range post.vars {
+			old, had := pre.get(k)
+			if !had {
+				continue
+			}
+			a, okA := retEnv.get(k)
+			if !okA {
+				a = old
+			}
+			e.set(k, joinSym(c, old, a, post.vars[k]))
+		}
+		return sVoid{}
+	}
 	switch {
 	case rThen == nil && rElse == nil:
 		joinEnv(e, cond, thenEnv, elseEnv)
-		return x.execBlock(pkg, rest, e)
+		return x.execBlockT(pkg, rest, e, tail)
 	case rThen != nil && rElse == nil:
 		joinEnv(e, GConst{false}, thenEnv, elseEnv) // continue with the else-side state
 		rRest := x.execBlock(pkg, rest, e)
@@ -1006,7 +1059,124 @@ func typeName(t types.Type) string {
 	return types.TypeString(t, func(p *types.Package) string { return p.Name() })
 }
 
+// opaqueLeaf names a call that is not inlined by its normalised text and types it by its result.
+func (x *Extractor) opaqueLeaf(pkg *packages.Package, call *ast.CallExpr, e *env) (sym, bool) {
+	if !x.Opaque {
+		return nil, false
+	}
+	var name func(ex ast.Expr) (string, bool)
+	name = func(ex ast.Expr) (string, bool) {
+		switch v := ex.(type) {
+		case *ast.ParenExpr:
+			return name(v.X)
+		case *ast.CallExpr:
+			var args []string
+			for _, a := range v.Args {
+				s, ok := name(a)
+				if !ok {
+					return "", false
+				}
+				args = append(args, s)
+			}
+			switch f := v.Fun.(type) {
+			case *ast.SelectorExpr:
+				if id, ok := f.X.(*ast.Ident); ok {
+					if _, isPkg := pkg.TypesInfo.Uses[id].(*types.PkgName); isPkg {
+						return f.Sel.Name + "(" + strings.Join(args, ", ") + ")", true
+					}
+				}
+				r, ok := name(f.X)
+				if !ok {
+					return "", false
+				}
+				return r + "." + f.Sel.Name + "(" + strings.Join(args, ", ") + ")", true
+			case *ast.Ident:
+				return f.Name + "(" + strings.Join(args, ", ") + ")", true
+			}
+			return "", false
+		default:
+			val := x.eval(pkg, ex, e)
+			switch p := val.(type) {
+			case sPath:
+				return p.P, true
+			case sStr:
+				if h, ok := p.T.(Hole); ok {
+					return h.Path, true
+				}
+				if l, ok := p.T.(Lit); ok {
+					return fmt.Sprintf("%q", l.S), true
+				}
+			case sBool:
+				if l, ok := p.G.(GLeaf); ok {
+					return l.Path, true
+				}
+			}
+			return "", false
+		}
+	}
+	n, ok := name(call)
+	if !ok {
+		return nil, false
+	}
+	t := pkg.TypesInfo.TypeOf(call)
+	if t == nil {
+		return nil, false
+	}
+	if tup, isTup := t.(*types.Tuple); isTup {
+		if tup.Len() != 1 {
+			return nil, false
+		}
+		t = tup.At(0).Type()
+	}
+	return leaf(sPath{P: n, T: t}), true
+}
+
 func (x *Extractor) evalCall(pkg *packages.Package, call *ast.CallExpr, e *env) sym {
+	if x.Opaque {
+		if r, ok := x.tryOpaque(pkg, call, e); ok {
+			return r
+		}
+	}
+	return x.evalCallInl(pkg, call, e)
+}
+
+// tryOpaque decides whether a call must stay opaque: external package functions (except fmt.Sprintf),
+// interface method calls and methods of external types.
+func (x *Extractor) tryOpaque(pkg *packages.Package, call *ast.CallExpr, e *env) (sym, bool) {
+	info := pkg.TypesInfo
+	sel, ok := call.Fun.(*ast.SelectorExpr)
+	if !ok {
+		return nil, false
+	}
+	if id, ok := sel.X.(*ast.Ident); ok {
+		if pn, ok := info.Uses[id].(*types.PkgName); ok {
+			if pn.Imported().Path() == "fmt" && sel.Sel.Name == "Sprintf" {
+				return nil, false
+			}
+			if fn, ok := info.Uses[sel.Sel].(*types.Func); ok && x.decls[fn] != nil {
+				// module helper such as util.IsPtr: keep opaque when it takes non-IR operands (types)
+				return x.opaqueLeaf(pkg, call, e)
+			}
+			return x.opaqueLeaf(pkg, call, e)
+		}
+		if o := info.Uses[id]; o != nil {
+			ts := deref(o.Type()).String()
+			if ts == "strings.Builder" || ts == "bytes.Buffer" {
+				return nil, false
+			}
+		}
+	}
+	if s := info.Selections[sel]; s != nil {
+		if fn, ok := s.Obj().(*types.Func); ok {
+			if _, isIface := s.Recv().Underlying().(*types.Interface); isIface || x.decls[fn] == nil {
+				return x.opaqueLeaf(pkg, call, e)
+			}
+		}
+	}
+	return nil, false
+}
+
+func (x *Extractor) evalCallInl(pkg *packages.Package, call *ast.CallExpr, e *env) sym {
 	info := pkg.TypesInfo
 	// conversions string(x) / model.DstVarStyle("arg") are constants, handled by the caller
 	switch fun := call.Fun.(type) {
@@ -1170,7 +1340,7 @@ func (x *Extractor) inline(fn *types.Func, recv sym, call *ast.CallExpr, pkg *pa
 	}
 	x.stack = append(x.stack, fn)
 	x.Funcs[fn.FullName()] = true
-	r := x.execBlock(fpkg, fd.Body.List, ne)
+	r := x.execBlockT(fpkg, fd.Body.List, ne, true)
 	x.stack = x.stack[:len(x.stack)-1]
 	if r == nil {
 		x.fail(call.Pos(), "%s does not return on every path", fn.FullName())
@@ -1179,7 +1349,9 @@ func (x *Extractor) inline(fn *types.Func, recv sym, call *ast.CallExpr, pkg *pa
 }
 
 func (x *Extractor) callClosure(f sFunc, call *ast.CallExpr, pkg *packages.Package, e *env) sym {
-	ne := newEnv(f.Env)
+	// captured variables are looked up (by object identity) in the caller's current state, which derives from
+	// the defining environment; the closure must be called within the defining function
+	ne := newEnv(e)
 	i := 0
 	for _, fl := range f.Lit.Type.Params.List {
 		for _, n := range fl.Names {
@@ -1187,8 +1359,11 @@ func (x *Extractor) callClosure(f sFunc, call *ast.CallExpr, pkg *packages.Packa
 			i++
 		}
 	}
-	r := x.execBlock(f.Pkg, f.Lit.Body.List, ne)
+	r := x.execBlockT(f.Pkg, f.Lit.Body.List, ne, true)
 	if r == nil {
+		return sNone{}
+	}
+	if _, ok := r.(sVoid); ok {
 		return sNone{}
 	}
 	return r
